@@ -590,6 +590,23 @@ def heap_rewrite(evs, retv, heap):
     return out, _rw(retv, heap) if isinstance(retv, tuple) else retv
 
 
+def _unq(t, q):
+    if not isinstance(t, tuple) or not t:
+        return t
+    if t[0] == 'quote' and len(t) == 2 and t[1] in q:
+        return q[t[1]]
+    return tuple(_unq(x, q) if isinstance(x, tuple) else x for x in t)
+
+
+def unquote(evs, retv, q):
+    out = []
+    for e in evs:
+        d = {k: (_unq(v, q) if isinstance(v, tuple) else v) for k, v in e.d.items()}
+        ne = Ev(e.kind, e.bb, e.line, tuple(_unq(g, q) if isinstance(g, tuple) else g for g in e.held), e.mac, **d)
+        out.append(ne)
+    return out, _unq(retv, q) if isinstance(retv, tuple) else retv
+
+
 def set_field(agg, field, value):
     """aggregate term with one named field replaced (None when the term is not a literal aggregate with that field)"""
     if not (isinstance(agg, tuple) and agg and agg[0] == 'agg' and len(agg) > 4 and agg[4]):
@@ -1273,8 +1290,19 @@ class Fn:
                         return
                     if _depth < 3 and ev is not None and facts.is_new_fn(callee):
                         cf = facts.fn(facts.by[callee])
+                        # a closure handed to the helper is known here: the helper's own `f(x)` is then analysed through, with the
+                        # closure's captures kept as opaque quotes while the helper's paths are computed (they are caller terms)
+                        qtable, env_c = {}, {}
+                        for ai, a_ in enumerate(args):
+                            if isinstance(a_, tuple) and a_ and a_[0] == 'closure' and a_[1] in facts.by and ai + 1 <= cf.argc:
+                                qs = []
+                                for cap in a_[2]:
+                                    facts._inst[0] += 1
+                                    qtable[facts._inst[0]] = cap
+                                    qs.append(('quote', facts._inst[0]))
+                                env_c[ai + 1] = (a_[0], a_[1], tuple(qs)) + tuple(a_[3:])
                         try:
-                            cps = cf.paths(budget=3000, max_visits=max_visits, _depth=_depth + 1, desugar=desugar)
+                            cps = cf.paths(budget=3000, max_visits=max_visits, _depth=_depth + 1, desugar=desugar, env0=env_c or None)
                         except PathBudget:
                             cps = None
                         if cps is not None and len(cps) <= 256:
@@ -1285,6 +1313,9 @@ class Fn:
                                 pwrites = []
                                 evs2, retv, ret_held = instantiate_path(cp, args, inst, held_here, callee, writes=pwrites)
                                 # what the caller stored through a place before the call is what the helper reads from it
+                                if qtable:
+                                    evs2, retv = unquote(evs2, retv, qtable)
+                                    pwrites = [(pi_, _unq(pv_, qtable)) for pi_, pv_ in pwrites]
                                 # (only fields OF a by-reference argument: `helper(&mut state)` reading `state.f` after the caller
                                 # wrote `state.f`; an argument that is itself a value read earlier is a snapshot and stays as it is)
                                 if heap:
